@@ -1,6 +1,6 @@
 (* C33 Push notifications reach exactly the entitled subscribers. Statements only. *)
 From Coq Require Import List Bool Arith.
-From OP Require Import lib.Obs model.C33 proofs.C33_proofs.
+From OP Require Import lib.Obs model.C33 proofs.C33_proofs gen.Topics proofs.C33_like.
 Import ListNotations.
 
 (* For ALL sets of preferences, subscriptions, roles, contributors, topics and units: a
@@ -35,6 +35,17 @@ Theorem C33_only_subscriptions : forall prefs subs t u c sid,
   In sid (publish prefs subs t u c) -> In sid (map fst subs).
 Proof. exact publish_subset. Qed.
 Print Assumptions C33_only_subscriptions.
+
+(* ties to the source: the index the model uses for NEW_CONTRIBUTOR is the enum's, and the SQL
+   `topics.contains(topic)` (a LIKE on the JSON text) is membership on all lists of <= 3 topics *)
+Theorem C33_new_contributor_index : new_contributor_topic = new_contributor_index.
+Proof. reflexivity. Qed.
+Print Assumptions C33_new_contributor_index.
+
+Theorem C33_contains_is_membership_upto3 :
+  forallb (fun t => forallb (check_one t) lists_upto3) idxs = true.
+Proof. exact contains_is_membership_upto3. Qed.
+Print Assumptions C33_contains_is_membership_upto3.
 
 Example C33_nonvacuous :
   let prefs := [ {| p_user := 1; p_roles := [7]; p_scope := Access; p_topics := [0; 6]; p_units := [] |};
